@@ -540,7 +540,23 @@ class AdaptV:
 
 
 def iter_next(ex, it):
+    # a crate type that implements Iterator itself (reached through by_ref / take / for): its own `next` runs from MIR
+    if isinstance(it, Ptr):
+        tgt = it
+        while isinstance(tgt.get(), Ptr):
+            tgt = tgt.get()
+        v = tgt.get()
+        if isinstance(v, Struct) and v.name not in ("tuple", "Range", "RangeInclusive"):
+            d = ex.P.resolve(f"<{v.name} as Iterator>::next")
+            if d:
+                o = ex.call_fn(d, [tgt])
+                return None if o.variant == "None" else o.f[0]
     it = deref(it) if isinstance(it, Ptr) else it
+    if isinstance(it, AdaptV) and it.kind == "take_n":
+        if it.n <= 0:
+            return None
+        it.n -= 1
+        return iter_next(ex, it.inner)
     if isinstance(it, IterV):
         if it.i < len(it.items):
             i = it.i
@@ -1463,7 +1479,19 @@ def m_iter_simple_adapters(ex, a, callee, canon):
             return IterV(rest[n:] if kind == "skip" else rest[:n], it.by_ref)
         if kind in ("cloned", "copied"):
             return IterV([clone(deref(x)) for x in rest], False)
+    if kind == "take":
+        n = a[1].concrete()
+        if n is None:
+            raise Unsupported("take with a symbolic count")
+        ad = AdaptV("take_n", it, None)
+        ad.n = n
+        return ad
     raise Unsupported(f"{kind} over {it!r}")
+
+
+@model(r"^<.* as Iterator>::by_ref$")
+def m_iter_by_ref(ex, a, callee, canon):
+    return a[0]
 
 
 @model(r"^Vec::retain$")
